@@ -1,5 +1,8 @@
 //! C11 driver: real distance computations and closeness decisions, logged with SHA-256 digests of the
 //! address bytes computed here (sha2 crate), independently of libp2p's KBucketKey.
+#[path = "../nodeworld.rs"]
+#[allow(dead_code)]
+mod nodeworld;
 use ant_evm::U256;
 use ant_networking::{sort_peers_by_address, verif_hooks::peers_in_range};
 use ant_node::verif_hooks::VerifNode;
@@ -149,6 +152,48 @@ fn main() {
         let b = address(kinds[rng.gen_range(0..6)], &mut rng);
         ev_dist(&mut t, &a, &b, "random");
     }
+    // replication candidates chosen by a REAL node (SwarmDriver::get_replicate_candidates): routing table of P peers,
+    // target = the node itself (periodic replication) or a record (fresh replication), the store's responsible
+    // range unset / narrower than the close group / wider / everything
+    let n_cand: usize = arg("--candidates").and_then(|s| s.parse().ok()).unwrap_or(30);
+    let rt = tokio::runtime::Builder::new_current_thread().enable_all().build().expect("runtime");
+    rt.block_on(async {
+        let work = std::path::PathBuf::from(arg("--work").unwrap_or_else(|| ".".into())).join("candidates");
+        let stub = nodeworld::EvmStub::start();
+        for i in 0..n_cand {
+            let size = [3usize, 5, 6, 9, 12, 15][i % 6];
+            let dir = work.join(format!("n{i}"));
+            let mut node = nodeworld::NodeH::new(&mut rng, dir.clone(), stub.network());
+            let peers: Vec<PeerId> = (0..size).map(|_| peer(&mut rng)).collect();
+            for (j, p) in peers.iter().enumerate() { node.add_peer(p, 43000 + j as u16); }
+            let digests: Vec<Vec<u8>> = peers.iter().map(|p| sha(&p.to_bytes())).collect();
+            let id_of = |p: &PeerId| peers.iter().position(|x| x == p).map(|i| i + 1).unwrap_or(0);
+            let targets = [(NetworkAddress::from_peer(node.peer), node.peer.to_bytes()), address("chunk", &mut rng), address("register", &mut rng)];
+            // range classes, applied in this order on the same node (a range cannot be unset again)
+            for class in ["none", "narrow", "mid", "all"] {
+                for target in targets.iter() {
+                    let tdig = sha(&target.1);
+                    let mut dists: Vec<Vec<u8>> = digests.iter().map(|d| xor(&tdig, d)).collect();
+                    dists.sort();
+                    let range: Option<Vec<u8>> = match class {
+                        "narrow" => Some(dists[(size - 1).min(rng.gen_range(0..4))].clone()),
+                        "mid" => Some(dists[rng.gen_range(0..size)].clone()),
+                        "all" => Some(vec![255u8; 32]),
+                        _ => None,
+                    };
+                    if let Some(r) = &range {
+                        let s = node.driver.verif_node_store_mut().expect("node store");
+                        ant_networking::verif_hooks::store_set_responsible_distance_range(s, U256::from_be_slice(r));
+                    }
+                    let got = node.driver.verif_replicate_candidates(&target.0);
+                    t.emit(json!({"ev":"Candidates","target":tdig,"peers":digests,"hasRange":range.is_some(),"range":range.clone().unwrap_or(vec![0u8;32]),
+                        "out":got.iter().map(|p| id_of(p)).collect::<Vec<_>>(),"class":class,"src":"node"}));
+                }
+            }
+            drop(node);
+            let _ = std::fs::remove_dir_all(&dir);
+        }
+    });
     let n = t.finish();
     println!("{}", json!({"events": n, "seed": seed, "cases": cases.len()}));
     let _ = Value::Null;
